@@ -712,7 +712,7 @@ func finish(chk *Check, tier string, seed int64, reps []*workerReport, errs []st
 		}
 		nviol++
 		v.Property = chk.ID
-		dir := filepath.Join(verifDir, "replays", chk.ID)
+		dir := filepath.Join(envOr("VERIF_REPLAY_DIR", filepath.Join(verifDir, "replays")), chk.ID)
 		os.MkdirAll(dir, 0o755)
 		h := sha256.Sum256([]byte(v.Scenario + v.Sig))
 		path := filepath.Join(dir, sanitize(v.Scenario)+"-"+hex.EncodeToString(h[:])[:10]+".json")
@@ -762,9 +762,12 @@ func finish(chk *Check, tier string, seed int64, reps []*workerReport, errs []st
 		"violations":  nviol,
 	}
 	if rc != 2 && full { // a run restricted to one scenario does not describe the check
-		os.MkdirAll(filepath.Join(verifDir, "evidence"), 0o755)
+		// (VERIF_EVIDENCE_DIR: runs against a scratch copy of the repository, e.g. with a seeded change,
+		// must not overwrite the evidence of the real tree)
+		evDir := envOr("VERIF_EVIDENCE_DIR", filepath.Join(verifDir, "evidence"))
+		os.MkdirAll(evDir, 0o755)
 		b, _ := json.MarshalIndent(ev, "", " ")
-		os.WriteFile(filepath.Join(verifDir, "evidence", chk.ID+".json"), append(b, '\n'), 0o644)
+		os.WriteFile(filepath.Join(evDir, chk.ID+".json"), append(b, '\n'), 0o644)
 	}
 	fmt.Printf("[%s %s] executions=%d states=%d transitions=%d exhaustive=%v violations=%d known=%d wall=%.1fs\n",
 		chk.ID, tier, execs, states, trans, exhaustive, nviol, len(knownLines), wall)
